@@ -36,7 +36,7 @@ var (
 	scanCache = map[string]*scannedPkg{}
 )
 
-// scanPackage parses and type-checks the non-test files of a /repo package with the source importer (offline).
+// scanPackage parses the non-test files of a /repo package with the source importer (offline).
 func scanPackage(rel string) *scannedPkg {
 	scanMu.Lock()
 	defer scanMu.Unlock()
@@ -64,10 +64,17 @@ func scanPackage(rel string) *scannedPkg {
 		// honour build tags crudely: skip files guarded by "!verif" when a verif twin exists is not needed for scanning
 		s.files = append(s.files, f)
 	}
+	return s
+}
+
+// typeCheck type-checks a scanned package with the source importer (offline; slow: it parses the imported std packages).
+func (s *scannedPkg) typeCheck(rel string) {
+	if s.info != nil || s.err != nil {
+		return
+	}
 	s.info = &types.Info{Defs: map[*ast.Ident]types.Object{}}
 	conf := types.Config{Importer: importer.ForCompiler(s.fset, "source", nil), Error: func(error) {}}
 	s.pkg, _ = conf.Check("github.com/datastax/go-cassandra-native-protocol/"+rel, s.fset, s.files, s.info)
-	return s
 }
 
 // declaredConstants lists every constant of a named type declared in primitive/constants.go.
@@ -76,6 +83,7 @@ func declaredConstants() ([]declConst, error) {
 	if s.err != nil {
 		return nil, s.err
 	}
+	s.typeCheck("primitive")
 	var out []declConst
 	for id, obj := range s.info.Defs {
 		c, ok := obj.(*types.Const)
